@@ -58,15 +58,68 @@ fn small_cfg(rng: &mut Prng) -> Cfg {
 
 fn close(db: Arc<DB>) -> Option<Fail> {
     db.verif_wait_idle(Duration::from_secs(20));
+    let groups = check_groups();
     match Arc::try_unwrap(db) {
         Ok(d) => {
             if std::panic::catch_unwind(std::panic::AssertUnwindSafe(move || drop(d))).is_err() {
                 return Some(("c09:panic-in-close".into(), "closing the database panicked".into()));
             }
-            None
+            groups
         }
-        Err(_) => None,
+        Err(_) => groups,
     }
+}
+
+pub static GROUPS_CHECKED: std::sync::atomic::AtomicU64 = std::sync::atomic::AtomicU64::new(0);
+pub static GROUPS_CUT: std::sync::atomic::AtomicU64 = std::sync::atomic::AtomicU64::new(0);
+
+/// Every group commit formed while more than one writer was queued (recorded by a hook together with
+/// the queue the leader saw) against the grouping model (`Rain/Group.lean`), and directly against
+/// what the theorems state: the group's batch holds exactly the operations of its members, and
+/// nobody else is popped with the leader except one trailing batch-less writer.
+fn check_groups() -> Option<Fail> {
+    let events = raindb::verif::events_take(crate::dbsim::DB_PATH);
+    let path = DRV_PATH.get()?;
+    let mut drv: Option<crate::drv::Drv> = None;
+    let mut params = String::new();
+    let mut fail = None;
+    for ev in events {
+        let raindb::verif::Event::Group { queue, last, operations } = ev else { continue };
+        GROUPS_CHECKED.fetch_add(1, Ordering::SeqCst);
+        let show = queue.iter().map(|(sz, sy, b, n)| format!("{sz}B/{}ops/{}{}", n, if *sy { "sync" } else { "nosync" }, if *b { "" } else { "/no-batch" })).collect::<Vec<_>>().join(", ");
+        if last >= queue.len() {
+            fail.get_or_insert(("c05:group-last-writer-not-in-queue".into(), format!("the last writer of a group commit is not in the writer queue [{show}]")));
+            continue;
+        }
+        let members = if queue[last].2 { last + 1 } else { last };
+        let ops: usize = queue[..members].iter().map(|q| q.3).sum();
+        if members < queue.len() {
+            GROUPS_CUT.fetch_add(1, Ordering::SeqCst);
+        }
+        if ops != operations {
+            fail.get_or_insert((
+                "c05:writer-acknowledged-with-a-group-that-does-not-hold-its-batch".into(),
+                format!("a group commit over the queue [{show}] pops the writers up to index {last} but its batch holds {operations} operations, the batches of those writers hold {ops}: a writer is acknowledged although its operations were not written (or operations of a writer still queued were)"),
+            ));
+            continue;
+        }
+        if path == "none" {
+            continue;
+        }
+        let d = drv.get_or_insert_with(|| crate::drv::Drv::spawn(path));
+        if params.is_empty() {
+            params = d.ask("group.params");
+        }
+        let toks = queue.iter().map(|(sz, sy, b, _)| format!("{}:{}:{}", sz, if *sy { 's' } else { 'n' }, if *b { 'b' } else { 'e' })).collect::<Vec<_>>().join(",");
+        let ans = d.ask(&format!("group.build {params} {toks}"));
+        MODEL_REQUESTS.fetch_add(1, Ordering::SeqCst);
+        let total: usize = queue[..members].iter().map(|q| q.0).sum();
+        let real = format!("{members} {last} {total}");
+        if ans != real {
+            DRIFT.lock().push(format!("group commit over the queue [{show}]: the implementation grouped [members last total] = [{real}], the grouping model gives [{ans}] :: c05 group {toks}"));
+        }
+    }
+    fail
 }
 
 /// reader parked inside get while rotation + flush (+ compaction + deletion) complete
@@ -896,6 +949,8 @@ pub fn run(tier: &str, seed: u64, replay: Option<&str>, shard: Option<ShardArgs>
         rep.count("model_drift");
     }
     rep.model_requests = MODEL_REQUESTS.load(Ordering::SeqCst);
+    rep.add("c05.group-commits-with-queued-writers-checked", GROUPS_CHECKED.load(Ordering::SeqCst));
+    rep.add("c05.group-commits-cut-before-the-end-of-the-queue", GROUPS_CUT.load(Ordering::SeqCst));
     for _ in 0..COMPACT_DURING_BATCH.load(Ordering::SeqCst) {
         rep.count("c06.manual-compaction-requested-during-batch");
     }
